@@ -76,9 +76,15 @@ run-time primitives are in `Base/PyList.lean`, which the `imports` of the genera
   `F.rec fuel args {} >>= fun r => Py.deref r.ret`, its arguments are evaluated left to right and may raise (no `inout`
   parameters then).  A self-recursive function may contain `for` / `while` loops as long as no recursive call
   occurs inside a loop body (the loops are auxiliary definitions that come before `F.rec`);
+
+  callee's final list back into the caller's argument local for every `inout` parameter; `rec_env` lists Lean
+  parameters that are not parameters of the Python function (a setting the externals read): the call passes them
+  on unchanged and has no hole for them; a call inside a `for` loop of the function runs the argument `self_rec`
+  of the loop function, which `F.rec` instantiates with `F.rec fuel` (the loop functions are defined first);
+  `iter_view` = `{type: (template, list type)}`: iterating over an object of that type iterates over the list;
 * `a ** b` (natural exponent), `max(a, b)` / `min(a, b)` (integers: `max` / `min`; floats: `X.pymax` / `X.pymin`),
   list literals `[a, b]`, `[e] * n` (`List.replicate`), a list comprehension with one generator and a pure element
-  (`List.map`), a conditional expression whose branches are `Nat` and `Int` (coerced to `Int`), f-strings whose
+  (`List.map`; a comprehension variable that is a Lean keyword gets the suffix `_` like a declared local), a conditional expression whose branches are `Nat` and `Int` (coerced to `Int`), f-strings whose
   parts are strings, `+` on strings;
 * a dictionary that is only built and iterated is a list of pairs in insertion order: a dictionary comprehension
   `{k: v for a, b in it if c}` is `List.map` after `List.filter`, `for a, b in d.items()` iterates over the list;
@@ -729,6 +735,12 @@ class Fn:
                 raise Untranslatable(f"comprehension shape: {ast.unparse(node)}")
             it = self.iterator(g.iter)
             v = g.target.id
+            if v in LEAN_RESERVED:
+                # the variable of a comprehension that is a Lean keyword (`term`) is renamed like a declared local
+                for n in ast.walk(node.elt):
+                    if isinstance(n, ast.Name) and n.id == v:
+                        n.id = mangle(v)
+                v = mangle(v)
             if v in self.locals or v in self.ptypes or not it.ty.startswith("List "):
                 raise Untranslatable(f"comprehension variable / iterable: {ast.unparse(node)}")
             self.ptypes[v] = elem_type(it.ty)
@@ -800,6 +812,10 @@ class Fn:
             if re.fullmatch(r"List \(.+ × .+\)", d.ty):
                 return d          # a dictionary kept as the list of its items
         e = self.ce(node)
+        if e.ty in self.p.get("iter_view", {}):
+            # iterating over an object of a profile type: over the list the profile names (`for v in value`)
+            tmpl, lty = self.p["iter_view"][e.ty]
+            return self.bind1(e, lambda x: tmpl.format(paren(x)), lty)
         if e.ty.startswith("Stack "):
             # iterating over a list kept as a stack visits it from the bottom
             return self.bind1(e, lambda x: f"({x}).reverse", e.ty.replace("Stack ", "List "))
@@ -1251,11 +1267,11 @@ class Fn:
         lists it mutates in place"""
         if not self.ret_ty or self.locals.get(target) != self.ret_ty:
             raise Untranslatable(f"recursive call: '{target}' must have the return type {self.ret_ty}")
-        holes = self.self_call_holes(argnodes)
+        holes = self.self_call_holes(argnodes, in_loop_ok=True)
         args, wb = [], []
         for pn, pt in self.params:
             if pn not in holes:
-                args.append(pn)          # a parameter the call does not mention (`rec_fixed` / not in `self_call_params`): passed on unchanged
+                args.append(pn)          # a Lean-only parameter (`rec_fixed` / `rec_env`) or one outside `self_call_params`: passed on unchanged
                 continue
             node = holes[pn]
             a = self.ce(node)
@@ -1268,18 +1284,21 @@ class Fn:
                 wb.append(f"{node.id} := r.{self.p['inout'][pn]}")
         self.recursive = True
         wb.append(f"{target} := v")
-        return (f"{self.name}.rec fuel {' '.join(args)} {{}} >>= fun r =>\nPy.deref r.ret >>= fun v =>\n"
+        callee = "self_rec" if getattr(self, "loop_depth", 0) else f"{self.name}.rec fuel"
+        return (f"{callee} {' '.join(args)} {{}} >>= fun r =>\nPy.deref r.ret >>= fun v =>\n"
                 f"let σ := {{ σ with {', '.join(wb)} }}\n{after()}")
 
-    def self_call_holes(self, argnodes):
+    def self_call_holes(self, argnodes, in_loop_ok=False):
         """{parameter name: argument node} of a recursive call: the holes stand for `self_call_params` when given, otherwise
-        for all parameters except the Lean-only ones named by `rec_fixed`"""
-        fixed = self.p.get("rec_fixed", [])
+        for all parameters except the Lean-only ones named by `rec_fixed` / `rec_env`"""
+        fixed = list(self.p.get("rec_fixed", [])) + list(self.p.get("rec_env", []))
         names = [mangle(n) for n in self.p.get("self_call_params", [n for n, _ in self.params if n not in fixed])]
         if len(argnodes) != len(names) or any(n not in self.ptypes for n in names):
             raise Untranslatable("recursive call: one hole per parameter expected")
         if getattr(self, "loop_depth", 0):
-            raise Untranslatable("recursive call inside a loop body")
+            if not in_loop_ok:
+                raise Untranslatable("recursive call inside a loop body (expression position)")
+            self.rec_in_loop = True
         return dict(zip(names, argnodes))
 
     def self_call_expr(self, argnodes):
@@ -1408,6 +1427,8 @@ class Fn:
             out.append(a + "\n")
         text = "\n".join(out)
         if getattr(self, "recursive", False):
+            if self.nloop and any(isinstance(n, ast.While) for n in ast.walk(self.fdef)):
+                raise Untranslatable("while loops in a self-recursive function")
             if not diverts(self.fdef.body) or any(isinstance(n, ast.Return) and n.value is None for n in ast.walk(self.fdef)):
                 raise Untranslatable("a self-recursive function must end every path in `return <value>`")
             if "rec_fuel" not in self.p:
@@ -1417,11 +1438,21 @@ class Fn:
                    f"  | 0, {', '.join('_' for _ in self.params)}, _ => .error .fuel\n"
                    f"  | fuel + 1, {', '.join(n for n, _ in self.params)}, σ =>\n{ind(body, 4)}\n\n")
             main = f"def {self.name}.run {params} (σ : {self.name}.S) : Py.M {self.name}.S :=\n  {self.name}.rec ({self.p['rec_fuel']}) {pnames} σ\n"
-            # the loops (none of which contains a recursive call) take the parameters too
-            for i in range(1, self.nloop + 1):
-                ln = f"{self.name}.loop{i}"
-                rec = re.sub(re.escape(ln) + r"(?!\d)", f"{ln} {pnames}", rec)
-                text = re.sub(r"(?<!def )" + re.escape(ln) + r"(?!\d)", f"{ln} {pnames}", text)
+            if getattr(self, "rec_in_loop", False):
+                # a recursive call inside a `for` body: the loop functions are defined before `rec`, so they take the callee
+                # (`rec` with one unit of fuel less) as the argument `self_rec`
+                for i in range(1, self.nloop + 1):
+                    ln = f"{self.name}.loop{i}"
+                    text = re.sub(r"(?<!def )" + re.escape(ln) + r"(?!\d)", f"{ln} {pnames} self_rec", text)
+                    text = re.sub(r"def " + re.escape(ln) + " " + re.escape(params) + " :",
+                                  f"def {ln} {params} (self_rec : {sig} → {self.name}.S → Py.M {self.name}.S) :", text)
+                    rec = re.sub(re.escape(ln) + r"(?!\d)", f"{ln} {pnames} ({self.name}.rec fuel)", rec)
+            else:
+                # the loops (none of which contains a recursive call) take the parameters too
+                for i in range(1, self.nloop + 1):
+                    ln = f"{self.name}.loop{i}"
+                    rec = re.sub(re.escape(ln) + r"(?!\d)", f"{ln} {pnames}", rec)
+                    text = re.sub(r"(?<!def )" + re.escape(ln) + r"(?!\d)", f"{ln} {pnames}", text)
             return text + rec + main
         main = f"def {self.name}.run {params} (σ : {self.name}.S) : {self.mty()} :=\n{ind(body)}\n"
         if params:
